@@ -14,6 +14,7 @@ import (
 	"runtime/debug"
 	"strings"
 	"time"
+	"unsafe"
 
 	"github.com/open2b/scriggo"
 	"github.com/open2b/scriggo/native"
@@ -487,7 +488,7 @@ func buildRunOpt(src, name string, tmpl bool, vars map[string]any, extraGlobals 
 	berr := func() (err error) {
 		defer func() {
 			if r := recover(); r != nil {
-				err = fmt.Errorf("build panicked: %v", r)
+				err = buildPanic{fmt.Sprintf("build panicked: %v", r)}
 			}
 		}()
 		if tmpl {
@@ -515,6 +516,9 @@ func buildRunOpt(src, name string, tmpl bool, vars map[string]any, extraGlobals 
 	}()
 	if berr != nil {
 		res.outcome, res.builderr = "builderror", berr.Error()
+		if _, ok := berr.(buildPanic); ok {
+			res.outcome = "buildpanic" // Build / BuildTemplate itself panicked into the host
+		}
 		return res
 	}
 	res.built = true
@@ -523,6 +527,10 @@ func buildRunOpt(src, name string, tmpl bool, vars map[string]any, extraGlobals 
 	res.out = out.Bytes()
 	return res
 }
+
+type buildPanic struct{ msg string }
+
+func (e buildPanic) Error() string { return e.msg }
 
 func clip(s string, n int) string {
 	if len(s) > n {
@@ -719,6 +727,37 @@ type PS struct{ A int }
 
 func (p *PS) String() string { return "ps" }
 
+// value-receiver show methods (calling them through a nil pointer faults in Go)
+type VE struct{ A int }
+
+func (VE) Error() string { return "ve" }
+
+type VH struct{ A int }
+
+func (VH) HTML() native.HTML { return "<b>vh</b>" }
+
+type VC struct{ A int }
+
+func (VC) CSS() native.CSS { return "red" }
+
+type VJ struct{ A int }
+
+func (VJ) JS() native.JS { return "1" }
+
+type VN struct{ A int }
+
+func (VN) JSON() native.JSON { return "1" }
+
+type VM struct{ A int }
+
+func (VM) Markdown() native.Markdown { return "*vm*" }
+
+type VEnv struct{ A int }
+
+func (VEnv) String(native.Env) string { return "venv" }
+
+var pointee int
+
 type Node struct {
 	V    int
 	Next *Node
@@ -752,6 +791,26 @@ func showValue(name string) (any, bool) {
 		return (*time.Time)(nil), true
 	case "nil_ptr_value_stringer":
 		return (*VS)(nil), true
+	case "nil_ptr_value_error":
+		return (*VE)(nil), true
+	case "nil_ptr_value_html":
+		return (*VH)(nil), true
+	case "nil_ptr_value_css":
+		return (*VC)(nil), true
+	case "nil_ptr_value_js":
+		return (*VJ)(nil), true
+	case "nil_ptr_value_json":
+		return (*VN)(nil), true
+	case "nil_ptr_value_markdown":
+		return (*VM)(nil), true
+	case "nil_ptr_value_envstringer":
+		return (*VEnv)(nil), true
+	case "unsafe_pointer":
+		return unsafe.Pointer(&pointee), true
+	case "unsafe_pointer_nil":
+		return unsafe.Pointer(nil), true
+	case "struct_unsafe_pointer_field":
+		return struct{ P unsafe.Pointer }{unsafe.Pointer(&pointee)}, true
 	case "nil_ptr_ptr_stringer":
 		return (*PS)(nil), true
 	case "nil_ptr_struct":
